@@ -27,7 +27,7 @@ import (
 	"verif/internal/sched"
 )
 
-const subShards = 2
+const subShards = 4
 
 func init() {
 	core.Register(&core.Check{
